@@ -262,16 +262,23 @@ class AbstractPool:
                     worker._dbs = worker._dbs.set(
                         dbname,
                         state.PickledDatabaseState(
+                            # N.B.: "is None" and not "or" - an empty
+                            # config or reflection cache is falsy, but is
+                            # still the new value the worker was given.
                             user_schema_pickle=(
-                                user_schema_pickle
-                                or worker_db.user_schema_pickle
+                                worker_db.user_schema_pickle
+                                if user_schema_pickle is None
+                                else user_schema_pickle
                             ),
                             reflection_cache=(
-                                reflection_cache
-                                or worker_db.reflection_cache
+                                worker_db.reflection_cache
+                                if reflection_cache is None
+                                else reflection_cache
                             ),
                             database_config=(
-                                database_config or worker_db.database_config
+                                worker_db.database_config
+                                if database_config is None
+                                else database_config
                             ),
                         ),
                     )
@@ -1440,15 +1447,21 @@ class MultiTenantPool(FixedPool):
                     tenant_schema.dbs = tenant_schema.dbs.set(
                         dbname,
                         state.PickledDatabaseState(
+                            # N.B.: "is None" and not "or", see above.
                             user_schema_pickle=(
-                                user_schema_pickle
-                                or worker_db.user_schema_pickle
+                                worker_db.user_schema_pickle
+                                if user_schema_pickle is None
+                                else user_schema_pickle
                             ),
                             reflection_cache=(
-                                reflection_cache or worker_db.reflection_cache
+                                worker_db.reflection_cache
+                                if reflection_cache is None
+                                else reflection_cache
                             ),
                             database_config=(
-                                database_config or worker_db.database_config
+                                worker_db.database_config
+                                if database_config is None
+                                else database_config
                             ),
                         )
                     )
